@@ -20,8 +20,8 @@ CLAIMED = {
    ref="DESIGN.md §3 C06"),
  "C16": dict(
    technique="static analysis: SSA must-lockset over the hub/room/connection guard table, ordering (close-after-unlink) and guard-edge path queries, who-may-send enumeration on Connection.send, limit-test boundary evaluation, config def-use",
-   text="Structural necessary conditions of hub/room consistency decided at every site: each guarded field only under its mutex; every close(conn.send) only after the connection left Hub.connections and all rooms; every send on conn.send is in the hub loop or under Room.mu; a connection records membership only on the room's err==nil edge and forgets a room only with the room-side remove; inserts into Hub.connections/Room.connections are preceded in the same critical section by a len-vs-max test whose len==max outcome cannot reach the insert; NewServer's Config reaches the hub; client-controlled data is never type-asserted unchecked in hub goroutines.",
-   note="Does not cover delivery guarantees, deadlock freedom with blocking channel sends, real interleavings. Known finding: Connection.Send has no closed-state guard (3 send sites). Lockset is receiver-insensitive. Trusted: go/types, go/ssa, the guard table in c16.go.",
+   text="Structural necessary conditions of hub/room consistency decided at every site: each guarded field only under its mutex; every close(conn.send) only after the connection left Hub.connections and all rooms; every send on conn.send is in the hub loop, under Room.mu, or behind a closed-state guard (holds the Connection mutex every close holds exclusively, crosses the closed-flag==false edge with the lock held continuously, and never blocks while holding it unless the closer releases the select first); close sites reached through wrapper functions are lifted to the wrapper's callers; a connection records membership only on the room's err==nil edge and forgets a room only with the room-side remove; inserts into Hub.connections/Room.connections are preceded in the same critical section by a len-vs-max test whose len==max outcome cannot reach the insert; NewServer's Config reaches the hub; client-controlled data is never type-asserted unchecked in hub goroutines.",
+   note="Does not cover delivery guarantees, general deadlock freedom (only the blocking-send-under-guard shape), real interleavings. Lockset is receiver-insensitive. Trusted: go/types, go/ssa, the guard table in c16.go.",
    ref="DESIGN.md §3 C16"),
  "C15": dict(
    technique="static analysis: SSA must-lockset over JIT unit/specialisation/stats state, must-pass-through of invalidation entry points to every bytecode store, compiler-freshness (escape) rule over values and type declarations, tier-switch exhaustiveness",
